@@ -85,6 +85,106 @@ theorem C15_refuse (ν d : K) (A B : FUnit K) (v : K) :
     · simp only [convertFlux, toFlux, hfa]
     · cases fa <;> simp only [convertFlux, toFlux, fromFlux, hfa, hb]
 
+/-- **C15 (one factor).** Between two supported units the conversion is multiplication by one factor that
+    depends only on the two families, the two unit scales, the frequency and the distance. -/
+theorem C15_factor (ν d : K) (A B : FUnit K) (v : K) (fa fb : Family)
+    (ha : A.fam = some fa) (hb : B.fam = some fb) :
+    convertFlux ν d A B v = .ok (v * convFactor ν d fa fb A.scale B.scale) := by
+  cases fa <;> cases fb <;>
+    (simp only [convertFlux, toFlux, fromFlux, ha, hb, convFactor, famTo, famFrom]; congr 1; ring)
+
+/-- **C15 (groupoid).** Stated once for all families, with the frequency and the distance as parameters:
+    the factors compose (`A→B→C = A→C`), the factor of `A→A` is one, and `A→B` and `B→A` are inverse. -/
+theorem C15_groupoid (ν d : K) (fa fb fc : Family) (sa sb sc : K)
+    (hν : ν ≠ 0) (hd : d ≠ 0) (hsa : sa ≠ 0) (hsb : sb ≠ 0) :
+    convFactor ν d fa fb sa sb * convFactor ν d fb fc sb sc = convFactor ν d fa fc sa sc ∧
+    convFactor ν d fa fa sa sa = 1 ∧
+    convFactor ν d fa fb sa sb * convFactor ν d fb fa sb sa = 1 := by
+  refine ⟨?_, ?_, ?_⟩
+  · cases fa <;> cases fb <;> cases fc <;> (simp only [convFactor, famTo, famFrom]; field_simp)
+  · cases fa <;> (simp only [convFactor, famTo, famFrom]; field_simp)
+  · cases fa <;> cases fb <;> (simp only [convFactor, famTo, famFrom]; field_simp)
+
+/-- **C15 (groupoid on values).** The same on the conversions themselves, for every triple of supported
+    units: `A→B→C = A→C` and `A→B→A = id`. -/
+theorem C15_groupoid_values (ν d : K) (A B C : FUnit K) (v : K) (fa fb fc : Family)
+    (ha : A.fam = some fa) (hb : B.fam = some fb) (hc : C.fam = some fc)
+    (hν : ν ≠ 0) (hd : d ≠ 0) (hA : A.scale ≠ 0) (hB : B.scale ≠ 0) :
+    (∃ r, convertFlux ν d A B v = .ok r ∧ convertFlux ν d B C r = convertFlux ν d A C v) ∧
+    (∃ r, convertFlux ν d A B v = .ok r ∧ convertFlux ν d B A r = .ok v) := by
+  obtain ⟨h1, _, h3⟩ := C15_groupoid ν d fa fb fc A.scale B.scale C.scale hν hd hA hB
+  refine ⟨⟨_, C15_factor ν d A B v fa fb ha hb, ?_⟩, ⟨_, C15_factor ν d A B v fa fb ha hb, ?_⟩⟩
+  · rw [C15_factor ν d B C _ fb fc hb hc, C15_factor ν d A C v fa fc ha hc, mul_assoc, h1]
+  · rw [C15_factor ν d B A _ fb fa hb ha, mul_assoc, h3, mul_one]
+
+/-- **C15 (distance).** The luminosity family depends on the distance through `d²` only
+    (`L = F·d²`, `F = L/d²`), the other families not at all; a file without a `DISTANCE` keyword is
+    converted with `d = 1 kpc`. -/
+theorem C15_distance (ν d kpc x : K) (sa sb : K) (hd : d ≠ 0) :
+    convFactor ν d .flux .lum sa sb = sa * (d * d) / sb ∧
+    convFactor ν d .lum .flux sa sb = sa / (d * d) / sb ∧
+    convFactor ν d .fnu .lum sa sb = sa * ν * (d * d) / sb ∧
+    convFactor ν d .lum .lum sa sb = sa / sb ∧
+    (∀ d' : K, convFactor ν d .fnu .flux sa sb = convFactor ν d' .fnu .flux sa sb) ∧
+    readDistance (none : Option K) kpc = kpc ∧ readDistance (some x) kpc = x := by
+  refine ⟨?_, ?_, ?_, ?_, ?_, rfl, rfl⟩
+  · simp only [convFactor, famTo, famFrom]; try ring
+  · simp only [convFactor, famTo, famFrom]; try ring
+  · simp only [convFactor, famTo, famFrom]; try ring
+  · simp only [convFactor, famTo, famFrom]; try field_simp
+  · intro d'; simp only [convFactor, famTo, famFrom]
+
+/-- **C15 (linear, zero preserved).** Conversion between supported units is linear — scales and sums
+    commute with it, so errors convert exactly like fluxes — and zero converts to zero (a value of the
+    REQUESTED unit: the result is `.ok 0`, whatever `ν`, `d` and the scales are). -/
+theorem C15_linear (ν d : K) (A B : FUnit K) (fa fb : Family) (ha : A.fam = some fa) (hb : B.fam = some fb)
+    (α β v w : K) :
+    (∃ r1 r2, convertFlux ν d A B v = .ok r1 ∧ convertFlux ν d A B w = .ok r2 ∧
+      convertFlux ν d A B (α * v + β * w) = .ok (α * r1 + β * r2)) ∧
+    convertFlux ν d A B 0 = .ok 0 := by
+  refine ⟨⟨_, _, C15_factor ν d A B v fa fb ha hb, C15_factor ν d A B w fa fb ha hb, ?_⟩, ?_⟩
+  · rw [C15_factor ν d A B _ fa fb ha hb]; congr 1; ring
+  · rw [C15_factor ν d A B 0 fa fb ha hb, zero_mul]
+
+/-- a whole aperture row between supported units: element-wise multiplication by the factor at its own frequency -/
+theorem C15_row_factor (d : K) (A B : FUnit K) (fa fb : Family) (ha : A.fam = some fa) (hb : B.fam = some fb) :
+    ∀ (νs vs : List K), convertRow d A B νs vs
+      = .ok (List.zipWith (fun ν v => v * convFactor ν d fa fb A.scale B.scale) νs vs)
+  | [], _ => by simp [convertRow]
+  | _ :: _, [] => by simp [convertRow]
+  | ν :: νs, v :: vs => by
+    simp only [convertRow, C15_factor ν d A B v fa fb ha hb, C15_row_factor d A B fa fb ha hb νs vs,
+      List.zipWith_cons_cons]
+
+/-- **C15 (all-zero rows).** An all-zero row (model SEDs without uncertainties) converts to an all-zero
+    row of the same length in the requested unit. -/
+theorem C15_zero_row (d : K) (A B : FUnit K) (fa fb : Family) (ha : A.fam = some fa) (hb : B.fam = some fb)
+    (νs : List K) : convertRow d A B νs (νs.map (fun _ => 0)) = .ok (νs.map (fun _ => 0)) := by
+  rw [C15_row_factor d A B fa fb ha hb]
+  congr 1
+  induction νs with
+  | nil => rfl
+  | cons ν νs ih => simp only [List.map_cons, List.zipWith_cons_cons, zero_mul, ih]
+
+/-- **C15 (refusal for every input).** A target unit of none of the families is refused for every
+    non-empty row — whatever the values are, all-zero rows included — and so is such a source unit. -/
+theorem C15_refuse_row (d : K) (A B : FUnit K) (h : A.fam = none ∨ B.fam = none) (ν v : K) (νs vs : List K) :
+    convertRow d A B (ν :: νs) (v :: vs) = .error .unsupported := by
+  have hc : convertFlux ν d A B v = .error .unsupported := by
+    rcases h with h | h
+    · exact (C15_refuse ν d A B v).1 h
+    · exact (C15_refuse ν d A B v).2 h
+  simp only [convertRow, hc]
+
+/-- **C15 (spectral order).** Conversion commutes with reversing the spectral axis, because each
+    frequency travels with its flux: converting then reversing = reversing both arrays then converting. -/
+theorem C15_reverse (d : K) (A B : FUnit K) (fa fb : Family) (ha : A.fam = some fa) (hb : B.fam = some fb)
+    (νs vs : List K) (hlen : νs.length = vs.length) :
+    convertRow d A B νs.reverse vs.reverse = (convertRow d A B νs vs).map List.reverse := by
+  rw [C15_row_factor d A B fa fb ha hb, C15_row_factor d A B fa fb ha hb]
+  simp only [Except.map]
+  rw [List.reverse_zipWith hlen]
+
 /-! ### Non-vacuity (over ℚ): mJy, Jy, erg/cm²/s, W/m², erg/s and a temperature -/
 
 def exMJy : FUnit Rat := ⟨some .fnu, 1 / 10 ^ 26⟩
@@ -101,6 +201,18 @@ example : convertFlux (2 * 10 ^ 14) (3 * 10 ^ 21) exMJy exCgs 5 = .ok (1 / 10 ^ 
     ∧ convertFlux (2 * 10 ^ 14) (3 * 10 ^ 21) exLum exJy (9 * 10 ^ 31) = .ok (5 / 1000)
     ∧ convertFlux (2 * 10 ^ 14) (3 * 10 ^ 21) exMJy exKelvin 5 = .error .unsupported := by
   simp only [convertFlux, toFlux, fromFlux, exMJy, exJy, exCgs, exSI, exLum, exKelvin]
+  norm_num
+
+-- groupoid, linearity, zero and reversal on concrete rows: two frequencies, mJy -> erg/s and back
+example : convFactor (2 * 10 ^ 14 : Rat) (3 * 10 ^ 21) .fnu .lum exMJy.scale exLum.scale
+      * convFactor (2 * 10 ^ 14 : Rat) (3 * 10 ^ 21) .lum .fnu exLum.scale exMJy.scale = 1 := by
+  simp only [convFactor, famTo, famFrom, exMJy, exLum]; norm_num
+
+example : convertRow (3 * 10 ^ 21) exMJy exCgs [2 * 10 ^ 14, 10 ^ 14] [5, 0] = .ok [1 / 10 ^ 11, 0]
+    ∧ convertRow (3 * 10 ^ 21) exMJy exCgs [10 ^ 14, 2 * 10 ^ 14] [0, 5] = .ok [0, 1 / 10 ^ 11]
+    ∧ convertRow (3 * 10 ^ 21) exMJy exKelvin [2 * 10 ^ 14, 10 ^ 14] [0, 0] = .error .unsupported
+    ∧ readDistance (none : Option Rat) (3085677581491367278913 / 1) = 3085677581491367278913 := by
+  simp only [convertRow, convertFlux, toFlux, fromFlux, exMJy, exCgs, exKelvin, readDistance]
   norm_num
 
 end SF
